@@ -16,8 +16,12 @@ def parse_stmt(src):
     return ast.parse(src).body[0]
 
 
+def _d(n):
+    return ast.dump(n).replace("ctx=Store()", "ctx=Load()").replace("ctx=Del()", "ctx=Load()")
+
+
 def same(a, b):
-    return ast.dump(a) == ast.dump(b)
+    return _d(a) == _d(b)
 
 
 def match(node, pat, binds=None):
